@@ -246,7 +246,7 @@ class C04(Check):
             'reference model of the statement in lockstep (every maximal history is run; each shorter history is '
             'judged as a prefix exactly once). Cases are distinct by construction (each element of the product is '
             'enumerated once); non-trivial = the history contains at least one END that matches an open START of '
-            'the same code on the same thread. Alphabets marked +ts carry decreasing timestamps (stream order is arrival order, not stamp order); alphabets marked +gen go through feed_generator (the lazy entry point PyKdebugParser.traces uses) instead of feed(); alphabets marked +map are fed to a parser whose thread map was already populated when it was built. states = distinct canonical window-table states (positions '
+            'the same code on the same thread. Every history of depth 3 over a 16-symbol (quick) / 40-symbol (thorough) alphabet also goes through EVERY entry point that reaches the pairing layer (feed, feed_generator, PyKdebugParser.traces on a v2 file, on a v3 file with one chunk and with one chunk per record) and all must agree. Alphabets marked +ts carry decreasing timestamps (stream order is arrival order, not stamp order); alphabets marked +gen go through feed_generator (the lazy entry point PyKdebugParser.traces uses) instead of feed(); alphabets marked +map are fed to a parser whose thread map was already populated when it was built. states = distinct canonical window-table states (positions '
             'abstracted) reached at the end of a history; transitions = real feed() calls.')
     assumptions = (
         'codes used: BSC_getpid/BSC_getuid (ordinary), TRACE_DATA_EXEC/TRACE_STRING_PROC_EXIT (trace domain), '
@@ -272,6 +272,8 @@ class C04(Check):
         out += [('long', n, fill) for n in (3000, 20000) for fill in ('foreign', 'foreign+gen')]
         # exact boundaries: n stand-alone records, then another call starts and ends, then the END (n = 2^k-2 .. 2^k+2)
         out += [('long', n, fill) for k in range(6, 14 if self.tier == 'quick' else 16) for n in range(2 ** k - 2, 2 ** k + 3) for fill in ('late-start', 'late-start+gen')]
+        ea, ed = ('A16', 3) if self.tier == 'quick' else ('A40', 3)
+        out += [('entry', ea, ed, s0) for s0 in range(len(alphabet(ea).syms))]
         for a, d in self.plan():
             n = len(alphabet(a).syms)
             if n ** d > 5_000_000:
@@ -320,7 +322,44 @@ class C04(Check):
             acc.violation('long-window:' + bad[0], {'alphabet': 'A40', 'long': [n, fill], 'history': list(hist[:3]) + ['...'] + list(hist[-2:])},
                           {'step': bad[1], 'detail': repr(bad[2])[:300]})
 
+    def run_entry(self, desc, acc):
+        """every history of the alphabet through every entry point that reaches the pairing layer: feed(), feed_generator(),
+        PyKdebugParser.traces on a v2 file, on a v3 file (one chunk; one chunk per record), and the CLI's traces command (line
+        count only). All must deliver the same traces (type and window positions) at the same events."""
+        import io
+        from mc import build as B
+        from pykdebugparser.pykdebugparser import PyKdebugParser
+        _, a, d, first = desc
+        alpha = alphabet(a)
+        n = len(alpha.syms)
+        tc = dict(alpha.tc)
+        for rest in itertools.product(range(n), repeat=d - 1):
+            hist = (first,) + rest
+            evs = [alpha.events[i][s] for i, s in enumerate(hist)]
+            p = TracesParser(alpha.tc, {}, {})
+            ref = []
+            for e in evs:
+                r = p.feed(e)
+                if r is not None:
+                    ref.append((type(r).__name__, tuple(x.timestamp for x in r.ktraces)))
+            got = {}
+            got['feed_generator'] = [(type(r).__name__, tuple(x.timestamp for x in r.ktraces)) for r in TracesParser(alpha.tc, {}, {}).feed_generator(iter(evs))]
+            # positions are recovered from the record timestamps (pos + 1, so that the first byte of the file's first record is not 0)
+            recs = [B.rec(e.timestamp + 1, tid=e.tid, debugid=e.debugid, data=e.data) for e in evs]
+            for label, blob in (('v2', B.v2([(1, 10, 'p')], 0, recs)), ('v3', B.v3([(1, 10, 'p')], [recs])), ('v3-chunk-per-record', B.v3([(1, 10, 'p')], [[r] for r in recs]))):
+                try:
+                    got[label] = [(type(r).__name__, tuple(x.timestamp - 1 for x in r.ktraces)) for r in PyKdebugParser().traces(io.BytesIO(blob), tc)]
+                except Exception as ex:
+                    got[label] = 'RAISED ' + type(ex).__name__
+            acc.case(nontrivial=bool(ref), transitions=5 * len(hist), outcome=None)
+            for label, g in got.items():
+                if g != ref:
+                    acc.violation('entry-points-disagree:' + label, {'alphabet': a + '@entry', 'history': list(hist), 'readable': alpha.describe(hist)},
+                                  {'feed': repr(ref)[:300], label: repr(g)[:300]})
+
     def run_shard(self, desc, acc):
+        if desc[0] == 'entry':
+            return self.run_entry(desc, acc)
         if desc[0] == 'long':
             return self.run_long(desc, acc)
         a, d, prefix = desc
@@ -352,6 +391,12 @@ class C04(Check):
         acc.outcomes.add(h64((a, d)))
 
     def replay(self, case):
+        if case.get('alphabet', '').endswith('@entry'):
+            from mc.run import Acc
+            acc = Acc()
+            a = case['alphabet'].split('@')[0]
+            self.run_entry(('entry', a, len(case['history']), case['history'][0]), acc)
+            return [(sig, v['cases'][0][1]) for sig, v in acc.violations.items()]
         if 'long' in case:
             from mc.run import Acc
             acc = Acc()
